@@ -23,7 +23,7 @@ type TextCase struct {
 
 var richCfg = func() gen.Cfg {
 	c := gen.Default
-	c.Strs = append(append([]string{}, c.Strs...), "\b\f", "\x7f", " ", "�", "𝄞", "‍", "a\u0000b", "\\u0041", "&lt;")
+	c.Strs = append(append([]string{}, c.Strs...), "\b\f", "cr\rlf\r\n", "\x7f", " ", "�", "𝄞", "‍", "a\u0000b", "\\u0041", "&lt;")
 	c.Nums = append(append([]string{}, c.Nums...), "-0.0", "0e0", "1E+2", "9007199254740993", "1e-400", "0.000000000000000000001", "-12345678901234567890")
 	c.Depth = 4
 	return c
